@@ -16,6 +16,96 @@ from .wrappers import GraphQLResult
 Resolver = Callable[..., Any]
 
 
+def prepare_execution(
+    schema: Schema,
+    document: _ast.Document,
+    *,
+    operation_name: Optional[str] = None,
+    variables: Optional[Mapping[str, Any]] = None,
+    initial_value: Optional[Any] = None,
+    context_value: Optional[Any] = None,
+    middlewares: Optional[Sequence[Callable[..., Any]]] = None,
+    instrumentation: Optional[Instrumentation] = None,
+    disable_introspection: bool = False,
+    runtime: Optional[Runtime] = None,
+    executor_cls: Type[Executor] = Executor
+) -> Callable[[], Any]:
+    """
+    Select the operation and coerce the variables of a request, and return
+    the callable which executes it.
+
+    Everything which can fail *before* any resolver runs (unknown or ambiguous
+    operation, operation kind not supported here, invalid variables) is raised
+    from this function; exceptions out of the returned callable come from the
+    execution itself. Takes the same arguments as :func:`execute`.
+
+    Raises:
+        InvalidOperationError: on invalid operation.
+        VariablesCoercionError: on invalid variables.
+    """
+    instrumentation = (
+        Instrumentation() if instrumentation is None else instrumentation
+    )
+    runtime = runtime or BlockingRuntime()
+
+    operation, root_type = get_operation_with_type(
+        schema, document, operation_name
+    )
+    coerced_variables = coerce_variable_values(
+        schema, operation, variables or {}
+    )
+
+    executor = executor_cls(
+        schema,
+        document,
+        coerced_variables,
+        context_value,
+        instrumentation=instrumentation,
+        disable_introspection=disable_introspection,
+        middlewares=middlewares,
+        runtime=runtime,
+    )
+
+    if operation.operation == "query":
+        exe_fn = executor.execute_fields
+    elif operation.operation == "mutation":
+        exe_fn = executor.execute_fields_serially
+    elif operation.operation == "subscription":
+        # An operation which cannot be executed here is a response error for
+        # the entry points, like an unknown operation name.
+        raise InvalidOperationError(
+            "`execute` does not support subscriptions, "
+            "use the `subscribe` helper."
+        )
+    else:
+        raise RuntimeError("Unknown operation type %s." % operation.operation)
+
+    def run() -> Any:
+        instrumentation.on_execution_start()
+
+        def _on_finish(data):
+            cast(Instrumentation, instrumentation).on_execution_end()
+            return GraphQLResult(data=data, errors=executor.errors)
+
+        return runtime.ensure_wrapped(
+            runtime.map_value(
+                runtime.unwrap_value(
+                    exe_fn(
+                        root_type,
+                        initial_value,
+                        [],
+                        executor.collect_fields(
+                            root_type, operation.selection_set.selections
+                        ),
+                    )
+                ),
+                _on_finish,
+            )
+        )
+
+    return run
+
+
 def execute(
     schema: Schema,
     document: _ast.Document,
@@ -75,61 +165,16 @@ def execute(
     Raises:
         InvalidOperationError: on invalid operation.
     """
-    instrumentation = (
-        Instrumentation() if instrumentation is None else instrumentation
-    )
-    runtime = runtime or BlockingRuntime()
-
-    operation, root_type = get_operation_with_type(
-        schema, document, operation_name
-    )
-    coerced_variables = coerce_variable_values(
-        schema, operation, variables or {}
-    )
-
-    executor = executor_cls(
+    return prepare_execution(
         schema,
         document,
-        coerced_variables,
-        context_value,
+        operation_name=operation_name,
+        variables=variables,
+        initial_value=initial_value,
+        context_value=context_value,
+        middlewares=middlewares,
         instrumentation=instrumentation,
         disable_introspection=disable_introspection,
-        middlewares=middlewares,
         runtime=runtime,
-    )
-
-    if operation.operation == "query":
-        exe_fn = executor.execute_fields
-    elif operation.operation == "mutation":
-        exe_fn = executor.execute_fields_serially
-    elif operation.operation == "subscription":
-        # An operation which cannot be executed here is a response error for
-        # the entry points, like an unknown operation name.
-        raise InvalidOperationError(
-            "`execute` does not support subscriptions, "
-            "use the `subscribe` helper."
-        )
-    else:
-        raise RuntimeError("Unknown operation type %s." % operation.operation)
-
-    instrumentation.on_execution_start()
-
-    def _on_finish(data):
-        cast(Instrumentation, instrumentation).on_execution_end()
-        return GraphQLResult(data=data, errors=executor.errors)
-
-    return runtime.ensure_wrapped(
-        runtime.map_value(
-            runtime.unwrap_value(
-                exe_fn(
-                    root_type,
-                    initial_value,
-                    [],
-                    executor.collect_fields(
-                        root_type, operation.selection_set.selections
-                    ),
-                )
-            ),
-            _on_finish,
-        )
-    )
+        executor_cls=executor_cls,
+    )()
